@@ -473,7 +473,10 @@ func (sa *Application) timeoutPlaceholderProcessing() {
 					continue
 				}
 				pendingRelease = append(pendingRelease, alloc)
-				sa.placeholderData[alloc.taskGroupName].TimedOut++
+				// asks that are not placeholders (no task group, or a group without placeholders) have no data
+				if phData, ok := sa.placeholderData[alloc.taskGroupName]; ok {
+					phData.TimedOut++
+				}
 			}
 		}
 		log.Log(log.SchedApplication).Info("Placeholder timeout, releasing allocated and pending placeholders",
